@@ -178,13 +178,24 @@ func observe(u *universe, x *index.Index, c *index.Corpus) []ob {
 	// The battery is a fixed sequence of calls: the argument texts are
 	// formatted once per universe and reused by position.
 	cached := u.argCache
-	add := func(m, v, format string, args ...any) {
+	add := func(m, v string, kv ...string) {
 		i := len(out)
 		if i < len(cached) && cached[i].M == m {
 			out = append(out, ob{m, cached[i].A, v})
 			return
 		}
-		out = append(out, ob{m, fmt.Sprintf(format, args...), v})
+		var sb strings.Builder
+		for j := 0; j+1 < len(kv); j += 2 {
+			if j > 0 {
+				sb.WriteByte(' ')
+			}
+			if kv[j] != "" {
+				sb.WriteString(kv[j])
+				sb.WriteByte('=')
+			}
+			sb.WriteString(kv[j+1])
+		}
+		out = append(out, ob{m, sb.String(), v})
 	}
 	x.RLock()
 	defer x.RUnlock()
@@ -193,18 +204,18 @@ func observe(u *universe, x *index.Index, c *index.Corpus) []ob {
 		rn := u.rnames[ri]
 		bm, err := x.GetBlobMeta(ctxbg, br)
 		if err != nil {
-			add("Index.GetBlobMeta", errStr(err), "%s", rn)
+			add("Index.GetBlobMeta", errStr(err), "", rn)
 		} else {
-			add("Index.GetBlobMeta", metaStr(bm), "%s", rn)
+			add("Index.GetBlobMeta", metaStr(bm), "", rn)
 		}
 		bm, err = c.GetBlobMeta(ctxbg, br)
 		if err != nil {
-			add("Corpus.GetBlobMeta", errStr(err), "%s", rn)
+			add("Corpus.GetBlobMeta", errStr(err), "", rn)
 		} else {
-			add("Corpus.GetBlobMeta", metaStr(bm), "%s", rn)
+			add("Corpus.GetBlobMeta", metaStr(bm), "", rn)
 		}
-		add("Index.IsDeleted", bstr(x.IsDeleted(br)), "%s", rn)
-		add("Corpus.IsDeleted", bstr(c.IsDeleted(br)), "%s", rn)
+		add("Index.IsDeleted", bstr(x.IsDeleted(br)), "", rn)
+		add("Corpus.IsDeleted", bstr(c.IsDeleted(br)), "", rn)
 
 		for _, sg := range u.signers {
 			for ai := -1; ai < len(u.attrs); ai++ {
@@ -212,29 +223,29 @@ func observe(u *universe, x *index.Index, c *index.Corpus) []ob {
 				if ai >= 0 {
 					attr = u.attrs[ai]
 				}
-				add("Index.AppendClaims", claimsStr(x.AppendClaims(ctxbg, nil, br, sg.id, attr)), "%s signer=%s attr=%q", rn, sg.name, attr)
-				add("Corpus.AppendClaims", claimsStr(c.AppendClaims(ctxbg, nil, br, sg.id, attr)), "%s signer=%s attr=%q", rn, sg.name, attr)
+				add("Index.AppendClaims", claimsStr(x.AppendClaims(ctxbg, nil, br, sg.id, attr)), "", rn, "signer", sg.name, "attr", attr)
+				add("Corpus.AppendClaims", claimsStr(c.AppendClaims(ctxbg, nil, br, sg.id, attr)), "", rn, "signer", sg.name, "attr", attr)
 			}
 		}
 		for _, attr := range u.attrs {
 			for ti, at := range u.times {
 				for _, sg := range u.signers {
-					add("Corpus.PermanodeAttrValue", c.PermanodeAttrValue(br, attr, at, sg.id), "%s %q at=%s signer=%s", rn, attr, u.tnames[ti], sg.name)
-					add("Corpus.AppendPermanodeAttrValues", valsStr(c.AppendPermanodeAttrValues(nil, br, attr, at, sg.id)), "%s %q at=%s signer=%s", rn, attr, u.tnames[ti], sg.name)
+					add("Corpus.PermanodeAttrValue", c.PermanodeAttrValue(br, attr, at, sg.id), "", rn, "attr", attr, "at", u.tnames[ti], "signer", sg.name)
+					add("Corpus.AppendPermanodeAttrValues", valsStr(c.AppendPermanodeAttrValues(nil, br, attr, at, sg.id)), "", rn, "attr", attr, "at", u.tnames[ti], "signer", sg.name)
 				}
 				for _, val := range u.vals {
-					add("Corpus.PermanodeHasAttrValue", bstr(c.PermanodeHasAttrValue(br, at, attr, val)), "%s at=%s %q=%q", rn, u.tnames[ti], attr, val)
+					add("Corpus.PermanodeHasAttrValue", bstr(c.PermanodeHasAttrValue(br, at, attr, val)), "", rn, "at", u.tnames[ti], "attr", attr, "val", val)
 				}
 			}
 		}
-		add("Corpus.PermanodeModtime", tstr(c.PermanodeModtime(br)), "%s", rn)
-		add("Corpus.PermanodeAnyTime", tstr(c.PermanodeAnyTime(br)), "%s", rn)
-		add("Corpus.PermanodeTime", tstr(c.PermanodeTime(br)), "%s", rn)
+		add("Corpus.PermanodeModtime", tstr(c.PermanodeModtime(br)), "", rn)
+		add("Corpus.PermanodeAnyTime", tstr(c.PermanodeAnyTime(br)), "", rn)
+		add("Corpus.PermanodeTime", tstr(c.PermanodeTime(br)), "", rn)
 
-		add("Index.GetFileInfo", fileInfoStr(x.GetFileInfo(ctxbg, br)), "%s", rn)
-		add("Corpus.GetFileInfo", fileInfoStr(c.GetFileInfo(ctxbg, br)), "%s", rn)
-		add("Corpus.GetDirChildren", refSet(c.GetDirChildren(ctxbg, br)), "%s", rn)
-		add("Corpus.GetParentDirs", refSet(c.GetParentDirs(ctxbg, br)), "%s", rn)
+		add("Index.GetFileInfo", fileInfoStr(x.GetFileInfo(ctxbg, br)), "", rn)
+		add("Corpus.GetFileInfo", fileInfoStr(c.GetFileInfo(ctxbg, br)), "", rn)
+		add("Corpus.GetDirChildren", refSet(c.GetDirChildren(ctxbg, br)), "", rn)
+		add("Corpus.GetParentDirs", refSet(c.GetParentDirs(ctxbg, br)), "", rn)
 		{
 			ch := make(chan blob.Ref, 64)
 			err := x.GetDirMembers(ctxbg, br, ch, 0)
@@ -243,39 +254,39 @@ func observe(u *universe, x *index.Index, c *index.Corpus) []ob {
 				s = append(s, m.String())
 			}
 			sort.Strings(s)
-			add("Index.GetDirMembers", errStr(err)+strings.Join(s, " "), "%s", rn)
+			add("Index.GetDirMembers", errStr(err)+strings.Join(s, " "), "", rn)
 		}
 		wr, ok := c.GetWholeRef(ctxbg, br)
-		add("Corpus.GetWholeRef", wr.String()+" "+bstr(ok), "%s", rn)
+		add("Corpus.GetWholeRef", wr.String()+" "+bstr(ok), "", rn)
 		if ii, err := x.GetImageInfo(ctxbg, br); err != nil {
-			add("Index.GetImageInfo", errStr(err), "%s", rn)
+			add("Index.GetImageInfo", errStr(err), "", rn)
 		} else {
-			add("Index.GetImageInfo", fmt.Sprintf("%dx%d", ii.Width, ii.Height), "%s", rn)
+			add("Index.GetImageInfo", fmt.Sprintf("%dx%d", ii.Width, ii.Height), "", rn)
 		}
 		if tags, err := x.GetMediaTags(ctxbg, br); err != nil {
-			add("Index.GetMediaTags", errStr(err), "%s", rn)
+			add("Index.GetMediaTags", errStr(err), "", rn)
 		} else {
 			var s []string
 			for k, v := range tags {
 				s = append(s, k+"="+v)
 			}
 			sort.Strings(s)
-			add("Index.GetMediaTags", strings.Join(s, ","), "%s", rn)
+			add("Index.GetMediaTags", strings.Join(s, ","), "", rn)
 		}
 		if loc, err := x.GetFileLocation(ctxbg, br); err != nil {
-			add("Index.GetFileLocation", errStr(err), "%s", rn)
+			add("Index.GetFileLocation", errStr(err), "", rn)
 		} else {
-			add("Index.GetFileLocation", fmt.Sprintf("%.7f,%.7f", loc.Latitude, loc.Longitude), "%s", rn)
+			add("Index.GetFileLocation", fmt.Sprintf("%.7f,%.7f", loc.Latitude, loc.Longitude), "", rn)
 		}
 		if lat, long, ok := c.FileLatLong(br); ok {
-			add("Corpus.FileLatLong", fmt.Sprintf("%.7f,%.7f", lat, long), "%s", rn)
+			add("Corpus.FileLatLong", fmt.Sprintf("%.7f,%.7f", lat, long), "", rn)
 		} else {
-			add("Corpus.FileLatLong", "none", "%s", rn)
+			add("Corpus.FileLatLong", "none", "", rn)
 		}
 		id, err := x.KeyId(ctxbg, br)
-		add("Index.KeyId", id+errStr(err), "%s", rn)
+		add("Index.KeyId", id+errStr(err), "", rn)
 		id, err = c.KeyId(ctxbg, br)
-		add("Corpus.KeyId", id+errStr(err), "%s", rn)
+		add("Corpus.KeyId", id+errStr(err), "", rn)
 
 		{
 			edges, err := x.EdgesTo(br, nil)
@@ -284,19 +295,19 @@ func observe(u *universe, x *index.Index, c *index.Corpus) []ob {
 				s[i] = fmt.Sprintf("{from=%v type=%s title=%q to=%v via=%v}", e.From, e.FromType, e.FromTitle, e.To, e.BlobRef)
 			}
 			sort.Strings(s)
-			add("Index.EdgesTo", errStr(err)+strings.Join(s, " "), "%s", rn)
+			add("Index.EdgesTo", errStr(err)+strings.Join(s, " "), "", rn)
 		}
 		for _, sb := range u.srefs {
-			add("Index.PathsOfSignerTarget", pathsStr(x.PathsOfSignerTarget(ctxbg, sb.Ref, br)), "signer=%s target=%s", sb.Name, rn)
+			add("Index.PathsOfSignerTarget", pathsStr(x.PathsOfSignerTarget(ctxbg, sb.Ref, br)), "signer", sb.Name, "target", rn)
 			for _, suf := range u.set.Suffixes {
-				add("Index.PathsLookup", pathsStr(x.PathsLookup(ctxbg, sb.Ref, br, suf)), "signer=%s base=%s suffix=%q", sb.Name, rn, suf)
+				add("Index.PathsLookup", pathsStr(x.PathsLookup(ctxbg, sb.Ref, br, suf)), "signer", sb.Name, "base", rn, "suffix", suf)
 				for ti, at := range u.times {
 					p, err := x.PathLookup(ctxbg, sb.Ref, br, suf, at)
 					v := errStr(err)
 					if err == nil {
 						v = pathsStr([]*camtypes.Path{p}, nil)
 					}
-					add("Index.PathLookup", v, "signer=%s base=%s suffix=%q at=%s", sb.Name, rn, suf, u.tnames[ti])
+					add("Index.PathLookup", v, "signer", sb.Name, "base", rn, "suffix", suf, "at", u.tnames[ti])
 				}
 			}
 		}
@@ -306,8 +317,8 @@ func observe(u *universe, x *index.Index, c *index.Corpus) []ob {
 			c.ForeachClaimBack(br, at, func(cl *camtypes.Claim) bool { sb = append(sb, claimStr(*cl)); return true })
 			sort.Strings(s) // "Iteration is in an undefined order"
 			sort.Strings(sb)
-			add("Corpus.ForeachClaim", strings.Join(s, " "), "%s at=%s", rn, u.tnames[ti])
-			add("Corpus.ForeachClaimBack", strings.Join(sb, " "), "%s at=%s", rn, u.tnames[ti])
+			add("Corpus.ForeachClaim", strings.Join(s, " "), "", rn, "at", u.tnames[ti])
+			add("Corpus.ForeachClaimBack", strings.Join(sb, " "), "", rn, "at", u.tnames[ti])
 		}
 		{
 			m, err := x.ExistingFileSchemas(br)
@@ -316,12 +327,12 @@ func observe(u *universe, x *index.Index, c *index.Corpus) []ob {
 				s = append(s, r.String())
 			}
 			sort.Strings(s)
-			add("Index.ExistingFileSchemas", errStr(err)+strings.Join(s, " "), "%s", rn)
+			add("Index.ExistingFileSchemas", errStr(err)+strings.Join(s, " "), "", rn)
 		}
 		{
 			v := "none"
 			c.EnumerateSingleBlob(func(bm camtypes.BlobMeta) bool { v = metaStr(bm); return true }, br)
-			add("Corpus.EnumerateSingleBlob", v, "%s", rn)
+			add("Corpus.EnumerateSingleBlob", v, "", rn)
 		}
 	}
 
@@ -333,7 +344,7 @@ func observe(u *universe, x *index.Index, c *index.Corpus) []ob {
 			}
 			for _, val := range u.vals {
 				pn, err := x.PermanodeOfSignerAttrValue(ctxbg, sb.Ref, attr, val)
-				add("Index.PermanodeOfSignerAttrValue", pn.String()+errStr(err), "signer=%s %q=%q", sb.Name, attr, val)
+				add("Index.PermanodeOfSignerAttrValue", pn.String()+errStr(err), "signer", sb.Name, "attr", attr, "val", val)
 			}
 			for ti, at := range u.times {
 				for qi := -1; qi < len(u.vals); qi++ {
@@ -347,7 +358,7 @@ func observe(u *universe, x *index.Index, c *index.Corpus) []ob {
 					for r := range ch {
 						s = append(s, r.String())
 					}
-					add("Index.SearchPermanodesWithAttr", errStr(err)+strings.Join(s, " "), "signer=%s %q=%q at=%s", sb.Name, attr, q, u.tnames[ti])
+					add("Index.SearchPermanodesWithAttr", errStr(err)+strings.Join(s, " "), "signer", sb.Name, "attr", attr, "query", q, "at", u.tnames[ti])
 				}
 			}
 		}
@@ -358,7 +369,7 @@ func observe(u *universe, x *index.Index, c *index.Corpus) []ob {
 			for r := range ch {
 				s = append(s, fmt.Sprintf("{%v by %v @%s}", r.Permanode, r.Signer, r.LastModTime.UTC().Format(time.RFC3339Nano)))
 			}
-			add("Index.GetRecentPermanodes", errStr(err)+strings.Join(s, " "), "owner=%s before=%s", sb.Name, u.tnames[ti])
+			add("Index.GetRecentPermanodes", errStr(err)+strings.Join(s, " "), "owner", sb.Name, "before", u.tnames[ti])
 		}
 	}
 
@@ -366,38 +377,38 @@ func observe(u *universe, x *index.Index, c *index.Corpus) []ob {
 	for _, newest := range []bool{true, false} {
 		var s []string
 		c.EnumeratePermanodesCreated(func(bm camtypes.BlobMeta) bool { s = append(s, metaStr(bm)); return true }, newest)
-		add("Corpus.EnumeratePermanodesCreated", strings.Join(s, " "), "newestFirst=%v", newest)
+		add("Corpus.EnumeratePermanodesCreated", strings.Join(s, " "), "newestFirst", bstr(newest))
 	}
 	{
 		var s []string
 		c.EnumeratePermanodesLastModified(func(bm camtypes.BlobMeta) bool { s = append(s, metaStr(bm)); return true })
-		add("Corpus.EnumeratePermanodesLastModified", strings.Join(s, " "), "")
+		add("Corpus.EnumeratePermanodesLastModified", strings.Join(s, " "))
 	}
 	{
 		var s []string
 		c.EnumerateBlobMeta(func(bm camtypes.BlobMeta) bool { s = append(s, metaStr(bm)); return true })
 		sort.Strings(s) // "undefined order"
-		add("Corpus.EnumerateBlobMeta", strings.Join(s, " "), "")
+		add("Corpus.EnumerateBlobMeta", strings.Join(s, " "))
 		s = nil
 		err := x.EnumerateBlobMeta(ctxbg, func(bm camtypes.BlobMeta) bool { s = append(s, metaStr(bm)); return true })
 		sort.Strings(s)
-		add("Index.EnumerateBlobMeta", errStr(err)+strings.Join(s, " "), "")
+		add("Index.EnumerateBlobMeta", errStr(err)+strings.Join(s, " "))
 	}
 	for _, ct := range []schema.CamliType{"", schema.TypePermanode, schema.TypeClaim, schema.TypeFile, schema.TypeDirectory, schema.TypeBytes, schema.TypeStaticSet} {
 		var s []string
 		c.EnumerateCamliBlobs(ct, func(bm camtypes.BlobMeta) bool { s = append(s, metaStr(bm)); return true })
 		sort.Strings(s)
-		add("Corpus.EnumerateCamliBlobs", strings.Join(s, " "), "type=%q", ct)
+		add("Corpus.EnumerateCamliBlobs", strings.Join(s, " "), "type", string(ct))
 	}
 	{
 		var s []string
 		c.EnumeratePermanodesByNodeTypes(func(bm camtypes.BlobMeta) bool { s = append(s, metaStr(bm)); return true }, []string{"", "foursquare.com:checkin"})
 		sort.Strings(s)
-		add("Corpus.EnumeratePermanodesByNodeTypes", strings.Join(s, " "), "")
+		add("Corpus.EnumeratePermanodesByNodeTypes", strings.Join(s, " "))
 	}
 	{
 		ok, err := x.HasLegacySHA1()
-		add("Index.HasLegacySHA1", bstr(ok)+errStr(err), "")
+		add("Index.HasLegacySHA1", bstr(ok)+errStr(err))
 	}
 	if len(u.argCache) == 0 {
 		u.argCache = make([]ob, len(out))
